@@ -31,7 +31,8 @@ type State struct {
 	nextRef Term
 	hv      Term // heap version: a fresh token after every heap write (for `reads heap` spec functions)
 	defers  []*ssa.Defer
-	iters   map[ssa.Value]Term // visited sets of map iterators
+	dguard  map[*ssa.Defer]Term // guard of a conditionally registered defer (absent = registered on every path here)
+	iters   map[ssa.Value]Term  // visited sets of map iterators
 	frozen  bool
 }
 
@@ -50,6 +51,12 @@ func (st *State) Clone() *State {
 		n.iters[k] = v
 	}
 	n.defers = append([]*ssa.Defer(nil), st.defers...)
+	if len(st.dguard) > 0 {
+		n.dguard = make(map[*ssa.Defer]Term, len(st.dguard))
+		for k, v := range st.dguard {
+			n.dguard[k] = v
+		}
+	}
 	return n
 }
 
@@ -305,37 +312,52 @@ func (fx *FnExec) Merge(hint string, ins []edgeIn) *State {
 		hvs[i] = in.st.hv
 	}
 	n.hv = mergeVals("hv", hvs)
-	// defers: must agree
-	// defers must agree, except for deferred calls that cannot write tracked state (metrics,
-	// timers): whether such a call runs or not is unobservable, so it is kept unconditionally
-	longest := ins[0].st.defers
-	for _, in := range ins[1:] {
-		if len(in.st.defers) > len(longest) {
-			longest = in.st.defers
+	// defers: the union of the incoming stacks, in source order (registration order along every path of structured
+	// code). A deferred call that is not registered on every incoming path becomes CONDITIONAL: its guard is the
+	// disjunction of the conditions of the edges that bring it (each conjoined with the guard it already had there).
+	// Deferred calls that cannot write tracked state (metrics, timers) are kept unconditionally: whether they run is
+	// unobservable.
+	var union []*ssa.Defer
+	seen := map[*ssa.Defer]bool{}
+	for _, in := range ins {
+		for _, d := range in.st.defers {
+			if !seen[d] {
+				seen[d] = true
+				union = append(union, d)
+			}
 		}
 	}
-	n.defers = append([]*ssa.Defer(nil), longest...)
-	for _, in := range ins {
-		have := map[*ssa.Defer]bool{}
-		for _, d := range in.st.defers {
-			have[d] = true
-		}
-		for _, d := range longest {
-			if !have[d] && !fx.deferIsEffectFree(d) {
-				unsupported("conditional defer (different defer stacks at a join)")
-			}
-		}
-		for _, d := range in.st.defers {
-			found := false
-			for _, l := range longest {
-				if l == d {
-					found = true
+	sort.SliceStable(union, func(a, b int) bool { return union[a].Pos() < union[b].Pos() })
+	n.defers = union
+	n.dguard = nil
+	for _, d := range union {
+		everywhere := true
+		var parts []Term
+		for _, in := range ins {
+			has := false
+			for _, x := range in.st.defers {
+				if x == d {
+					has = true
 				}
 			}
-			if !found && !fx.deferIsEffectFree(d) {
-				unsupported("conditional defer (different defer stacks at a join)")
+			if !has {
+				everywhere = false
+				continue
+			}
+			if g, ok := in.st.dguard[d]; ok {
+				everywhere = false
+				parts = append(parts, And(in.cond, g))
+			} else {
+				parts = append(parts, in.cond)
 			}
 		}
+		if everywhere || fx.deferIsEffectFree(d) {
+			continue
+		}
+		if n.dguard == nil {
+			n.dguard = map[*ssa.Defer]Term{}
+		}
+		n.dguard[d] = fx.sc.Define("dguard", Or(parts...))
 	}
 	return n
 }
